@@ -186,7 +186,7 @@ def generate(tier, rng):
       yield {'kind': 'flags', 'env': env, 'seed': rng.randrange(1000), 'limit': 14}
   if tier == 'quick':
     ns = [0, 1, 2, 3, 5, 8, 9, 12]
-    reps = 4
+    reps = 3
   elif tier == 'search':
     ns = list(range(0, 13))
     reps = 8
@@ -219,6 +219,21 @@ def generate(tier, rng):
         yield _case(rng, n, reg)
       if (rep + n) % 3 == 0:
         yield _case(rng, n, 'cw')            # l2 with center_params and params_weights
+  # exhaustive grid over masks x domain ids of one small batch (wave 5 item 2)
+  yield {'kind': 'grid', 'lmax': 3 if tier == 'quick' else 4, 'b': rng.choice([1, 2, 3]), 'y': [0, 3, -2, 5]}
+  # params as other pytree containers (tuple, list, NamedTuple, nested dict with a None sub-tree): wave 5 item 6
+  for i in range(1 if tier == 'quick' else 6):
+    c = _case(rng, rng.choice([3, 5, 8]), i % 2 == 0)
+    c.update({'kind': 'tree', 'structs': ['tuple', 'nested'] if tier == 'quick' else ['tuple', 'list', 'namedtuple', 'nested', 'dict']})
+    c['geos'] = c['geos'][:2]
+    yield c
+  # offset data: targets and bias share a large common offset, the residuals stay small (wave 5 item 3)
+  for i, off in enumerate([2**8, -2**12, 2**14, 2**10] if tier == 'quick' else [2**6, 2**8, -2**10, 2**12, -2**14, 2**14, 2**10, -2**8]):
+    c = _case(rng, rng.choice([3, 5, 8, 9]), i % 4 == 3)
+    c['y'] = [v + off for v in c['y']]
+    c['b'], c['b2'] = c['b'] + off, c['b2'] + off
+    c['offset'] = off
+    yield c
   # magnitude sweep: data and bias scaled by an exact power of two (all sums stay exact in float32)
   for i, k in enumerate([-20, -8, 8, 20] if tier == 'quick' else [-40, -20, -12, -8, -3, 3, 8, 12, 20, 40, 50, -50]):
     c = _case(rng, rng.choice([3, 5, 8, 9]), False if k < 0 else i % 2 == 1)
@@ -391,6 +406,34 @@ def _params(case, which=1, as_numpy=False):
   if as_numpy:
     return {'w': np.array([w[0] / 4, w[1] / 4], np.float32), 'b': np.float32(b * _u(case))}
   return {'w': jnp.array([w[0] / 4, w[1] / 4], jnp.float32), 'b': jnp.array(b * _u(case), jnp.float32)}
+
+
+LAYOUTS = ['C', 'F', 'T', 'step2', 'neg', 'col', 'ro']
+
+
+def _relayout(a, kind):
+  """The same values in another memory layout (wave 5 item 1)."""
+  a = np.ascontiguousarray(a)
+  if a.ndim == 0 or kind == 'C':
+    return a
+  if kind == 'F':
+    return np.asfortranarray(a)
+  if kind == 'T':
+    return np.ascontiguousarray(a.T).T
+  if kind == 'step2':
+    big = np.zeros((2 * a.shape[0],) + a.shape[1:], a.dtype)
+    big[::2] = a
+    big[1::2] = 1
+    return big[::2]
+  if kind == 'neg':
+    return np.ascontiguousarray(a[::-1])[::-1]
+  if kind == 'col':
+    big = np.ones(a.shape[:-1] + (2 * a.shape[-1] + 1,), a.dtype)
+    big[..., 1::2] = a
+    return big[..., 1::2]
+  a = a.copy()
+  a.setflags(write=False)
+  return a
 
 
 CIDS = [b'c', 'c', 0, b'', '', None, -1, b'__mask__']
@@ -740,6 +783,139 @@ def _oracle_hyp(case, obs):
   return out
 
 
+def _run_grid(case):
+  import itertools
+  import jax
+  import jax.numpy as jnp
+  from fedjax.core import models
+  api = _api(False)
+  params = {'w': jnp.zeros(2, jnp.float32), 'b': jnp.array(case['b'] / 4, jnp.float32)}
+  shared = {'params': params, 'alpha': jnp.array(ALPHA, jnp.float32)}
+  rng = jax.random.PRNGKey(0)
+  out = []
+  for l in range(1, case['lmax'] + 1):
+    y = np.array(case['y'][:l], np.float32) / 4
+    for m in itertools.product([False, True], repeat=l):
+      for ids in itertools.product([0, 1, 2], repeat=l):
+        b = {'x': np.zeros((l, 2), np.float32), 'y': y, 'domain_id': np.array(ids, np.int32), 'idx': np.arange(l, dtype=np.int32),
+             '__mask__': np.array(m, np.bool_)}
+        (_, dm), = list(api['domain'](shared, [(b'c', [b], rng)]))
+        out += [float(v) for v in np.asarray(dm['domain_loss'])] + [float(v) for v in np.asarray(dm['domain_num'])]
+        out.append(_fl(models.evaluate_average_loss(params, [b], rng, api['pel'], None)))
+  return {'grid': out}
+
+
+def _ref_grid(case):
+  import itertools
+  out = []
+  b = case['b'] / 4
+  for l in range(1, case['lmax'] + 1):
+    loss = [(b - v / 4) ** 2 for v in case['y'][:l]]
+    for m in itertools.product([False, True], repeat=l):
+      for ids in itertools.product([0, 1, 2], repeat=l):
+        out += [sum(x for x, mm, i in zip(loss, m, ids) if mm and i == d) for d in range(ND)]
+        out += [sum(1 for mm, i in zip(m, ids) if mm and i == d) for d in range(ND)]
+        real = [x for x, mm in zip(loss, m) if mm]
+        out.append(sum(real) / len(real) if real else 0.0)
+  return out
+
+
+def _tree_params(case, struct):
+  import collections
+  import jax.numpy as jnp
+  w = jnp.array([case['w'][0] / 4, case['w'][1] / 4], jnp.float32)
+  b = jnp.array(case['b'] * _u(case), jnp.float32)
+  if struct == 'tuple':
+    return (w, b)
+  if struct == 'list':
+    return [w, b]
+  if struct == 'namedtuple':
+    return _API.setdefault('WB', collections.namedtuple('WB', ['w', 'b']))(w, b)
+  if struct == 'nested':
+    return {'dense': {'w': w, 'bias': {'b': b}}, 'unused': None}
+  return {'w': w, 'b': b}
+
+
+def _run_tree(case):
+  """grad / model_grad / evaluator / Mime helper with the parameters held in other pytree containers; the loss finds
+  the weight vector (1-d leaf) and the bias (0-d leaf) among the leaves."""
+  import jax
+  from fedjax.core import models, tree_util
+  from fedjax.algorithms import mime
+  key = ('tree', case['reg'])
+  if key not in _API:
+    def leaves(params):
+      ls = jax.tree_util.tree_leaves(params)
+      return [x for x in ls if x.ndim == 1][0], [x for x in ls if x.ndim == 0][0]
+
+    def apply_for_train(params, batch, rng):
+      del rng
+      w, b = leaves(params)
+      return batch['x'] @ w + b
+    model = models.Model(init=lambda rng: None, apply_for_train=apply_for_train,
+                         apply_for_eval=lambda p, b: apply_for_train(p, b, None),
+                         train_loss=lambda batch, pred: (pred - batch['y'])**2, eval_metrics={})
+    pel = models.model_per_example_loss(model)
+    from fedjax.core import regularizers
+    regf = regularizers.l2_regularizer(float(LAM)) if case['reg'] else None
+    grad_fn = models.grad(pel, regf)
+    _API[key] = {'leaves': leaves, 'pel': pel, 'regf': regf, 'grad': grad_fn, 'mgrad': models.model_grad(model, regf),
+                 'evaluator': models.AverageLossEvaluator(pel, regf), 'mime': mime.create_grads_for_each_client(grad_fn)}
+  api = _API[key]
+  rng = jax.random.PRNGKey(3)
+  allrows = list(range(len(case['y'])))
+  obs = {'structs': []}
+
+  def vec(g):
+    w, b = api['leaves'](g)
+    return [_fl(w[0]), _fl(w[1]), _fl(b)]
+  for struct in case['structs']:
+    params = _tree_params(case, struct)
+    td = jax.tree_util.tree_structure(params)
+    o = {'struct': struct, 'geos': []}
+    for geo in case['geos']:
+      batches = _materialise(case, geo, allrows)
+      g0 = api['grad'](params, batches[0], rng) if batches else None
+      m0 = api['mgrad'](params, batches[0], rng) if batches else None
+      outs = list(api['mime'](params, [(b'c', batches, rng)]))
+      gs, ns = outs[0][1]
+      sg = tree_util.tree_inverse_weight(gs, ns)
+      o['geos'].append({
+          'layout': _layout(batches),
+          'same_structure': bool(all(jax.tree_util.tree_structure(t) == td for t in (g0, m0, gs, sg) if t is not None)),
+          'grad0': vec(g0) if g0 is not None else None, 'mgrad0': vec(m0) if m0 is not None else None,
+          'mime_server': vec(sg), 'num': _fl(ns),
+          'avg': [_fl(models.evaluate_average_loss(params, batches, rng, api['pel'], api['regf']))] +
+                 [_fl(v) for _, v in api['evaluator'].evaluate_global_params(params, [(b'c', batches, rng)])] +
+                 [_fl(v) for _, v in api['evaluator'].evaluate_per_client_params([(b'c', batches, rng, params)])]})
+    obs['structs'].append(o)
+  return obs
+
+
+def _oracle_tree(case, obs):
+  out = []
+  loss, G, r, dr = _closed(case)
+  n = len(loss)
+  z3 = np.zeros(3)
+  for o in obs['structs']:
+    for geo, g in zip(case['geos'], o['geos']):
+      tag = f'params as {o["struct"]}, {geo[0]}'
+      if not g['same_structure']:
+        out.append(('grad.tree-structure', f'{tag}: a gradient / gradient sum does not have the tree structure of the parameters'))
+      real0 = [c for c in g['layout'][0] if not isinstance(c, list)] if g['layout'] else []
+      want0 = (_mean_rows(G, real0, z3) + dr) if real0 else dr
+      for name in ('grad0', 'mgrad0'):
+        if g[name] is not None and not all(_near(a, b) for a, b in zip(g[name], want0)):
+          out.append(('grad.closed-form', f'{tag}: {name} {g[name]}, closed form {want0.tolist()}'))
+      want = (G.mean(axis=0) + dr) if n else z3
+      if not all(_near(a, b) for a, b in zip(g['mime_server'], want)) or g['num'] != n:
+        out.append(('mime.fullbatch-grad', f'{tag}: full-batch gradient {g["mime_server"]} / num {g["num"]}, closed form {want.tolist()} / {n}'))
+      exp_avg = (loss.mean() if n else 0.0) + r
+      if not all(_near(v, exp_avg) for v in g['avg']):
+        out.append(('avg-loss.closed-form.tree', f'{tag}: average losses {g["avg"]}, closed form {exp_avg}'))
+  return out[:3]
+
+
 def _run_lowp(case):
   import fedjax
   import jax
@@ -761,6 +937,10 @@ def _run_lowp(case):
 
 
 def run(case):
+  if case.get('kind') == 'grid':
+    return _run_grid(case)
+  if case.get('kind') == 'tree':
+    return _run_tree(case)
   if case.get('kind') == 'flags':
     return _run_flags(case)
   if case.get('kind') == 'hyp':
@@ -786,6 +966,12 @@ def run(case):
     batches = _materialise(case, geo, allrows)
     if geo[0] == 'hand' and gi % 2 == 0:                 # jax instead of numpy batch arrays
       batches = [{k: jnp.asarray(v) for k, v in b.items()} for b in batches]
+    else:                                                # numpy arrays in another memory layout
+      lay = LAYOUTS[(gi + n) % len(LAYOUTS)]
+      batches = [{k: _relayout(v, lay) for k, v in b.items()} for b in batches]
+      view = None
+      if gi % 2 == 1:
+        params = {'w': _relayout(params['w'], 'neg' if lay == 'C' else 'step2'), 'b': params['b']}
     snap = _snapshot((params, batches))
     view = _view(case, geo, allrows)
     form = DELIVERY[gi % len(DELIVERY)]
@@ -891,6 +1077,14 @@ def _mean_rows(vals, rows, zero):
 
 
 def oracle(case, obs):
+  if case.get('kind') == 'tree':
+    return _oracle_tree(case, obs)
+  if case.get('kind') == 'grid':
+    want = _ref_grid(case)
+    bad = [i for i, (a, b) in enumerate(zip(obs['grid'], want)) if not _near(a, b)]
+    if len(want) != len(obs['grid']) or bad:
+      return [('grid.mask-domain', f'{len(bad)} of {len(want)} grid values (domain_loss x3, domain_num x3, average loss per mask x domain-id combination) differ from the definition, first at index {bad[:1]}: {obs["grid"][bad[0]] if bad else None} vs {want[bad[0]] if bad else None}')]
+    return []
   if case.get('kind') == 'flags':
     return [(k, f'under {case["env"]}: {w} (case {json.dumps(c)[:300]})') for k, w, c in obs['violations']]
   if case.get('kind') == 'hyp':
@@ -1030,6 +1224,13 @@ def _mask(cells):
 
 
 def encode(case, obs):
+  if case.get('kind') == 'tree':
+    return None
+  if case.get('kind') == 'grid':
+    if not all(math.isfinite(v) for v in obs['grid']):
+      return None
+    vals = fw.qlist([(Fraction(case['b'], 4) - Fraction(v, 4)) ** 2 for v in case['y']])
+    return f'({fw.clist([f"(KGrid {case["lmax"]}%nat {vals}, {fw.qlist(obs["grid"])})"])}, tt)'
   if case.get('kind') == 'flags':
     return None
   if case.get('nonfinite'):
@@ -1088,7 +1289,7 @@ def encode(case, obs):
 def nontrivial(case, obs):
   if case.get('kind') == 'flags':
     return obs.get('ran', 0) > 0
-  if case.get('kind') in ('algo', 'lowp', 'hyp'):
+  if case.get('kind') in ('algo', 'lowp', 'hyp', 'grid', 'tree'):
     return True
   for g in obs['geos']:
     cells = [c for b in g['layout'] for c in b]
@@ -1098,6 +1299,8 @@ def nontrivial(case, obs):
 
 
 def describe(case, obs):
+  if case.get('kind') in ('grid', 'tree'):
+    return {'kind': case['kind']}
   if case.get('kind') == 'flags':
     return {'flags': json.dumps(case['env']), 'flag_cases_ran': obs.get('ran', 0)}
   if case.get('kind') == 'hyp':
@@ -1115,6 +1318,8 @@ def describe(case, obs):
 
 
 def shrink(case):
+  if case.get('kind') in ('grid', 'tree'):
+    return
   if case.get('kind') == 'flags':
     return
   if case.get('kind') in ('lowp', 'hyp'):
